@@ -144,10 +144,11 @@ def audit(prop_id):
 class Driver(object):
     """line-protocol connection to the compiled Lean model driver."""
 
-    def __init__(self):
-        if not os.path.exists(DRIVER):
-            raise InternalError("driver not built: %s" % DRIVER)
-        self.p = subprocess.Popen([DRIVER], stdin=subprocess.PIPE, stdout=subprocess.PIPE, text=True, bufsize=1 << 20)
+    def __init__(self, exe="amoco_driver"):
+        path = os.path.join(LEAN, ".lake", "build", "bin", exe)
+        if not os.path.exists(path):
+            raise InternalError("driver not built: %s" % path)
+        self.p = subprocess.Popen([path], stdin=subprocess.PIPE, stdout=subprocess.PIPE, text=True, bufsize=1 << 20)
         self.n = 0
 
     def ask(self, obj):
@@ -191,12 +192,20 @@ class Driver(object):
 
 def load_findings(prop_id):
     """known_findings.json: {"findings":[{"property":..,"signature":..,"what":..,"input":..}], "fixed":[...]}"""
-    path = os.path.join(ROOT, "known_findings.json")
-    try:
-        data = json.load(open(path))
-    except OSError:
-        return {}
-    return {f["signature"]: f for f in data.get("findings", []) if f.get("property") == prop_id}
+    out = {}
+    paths = [os.path.join(ROOT, "known_findings.json")]
+    d = os.path.join(ROOT, "known_findings.d")
+    if os.path.isdir(d):
+        paths += [os.path.join(d, f) for f in sorted(os.listdir(d)) if f.endswith(".json")]
+    for path in paths:
+        try:
+            data = json.load(open(path))
+        except OSError:
+            continue
+        for f in data.get("findings", []):
+            if f.get("property") == prop_id:
+                out[f["signature"]] = f
+    return out
 
 
 class Check(object):
